@@ -12,6 +12,25 @@ NOT_BUILT = "check not built yet in this round (claimed by DESIGN.md; " \
             "listed here until its static check exists and is exact)"
 
 CHECKS = {
+    "C19": {
+        "text": "PARTIAL writer/reader agreement: the quantity sequences "
+                "emitted by get_column_titles and get_row of both CSV "
+                "writers are extracted (keys folded, loops collapsed, "
+                "configuration guards ignored) and must be equal; each CSV "
+                "reader passes every constructor parameter the column "
+                "looked up under that parameter's key; the compact instance "
+                "string's positional fields, separators, IDX_* columns and "
+                "default multiplicity agree between writer and reader; "
+                "game-plan and ordering log texts put the data first and "
+                "their readers keep exactly the first line and validate.",
+        "design_ref": "DESIGN.md section 4, C19",
+        "note": "Does NOT decide equality of values / derived attributes "
+                "after a round trip (runtime conversion). Relies on the "
+                "repository's camelCase key <-> snake_case attribute "
+                "naming regularity.",
+        "technique": "emission-sequence extraction and agreement "
+                     "(writer vs writer, writer vs reader) over the AST",
+    },
     "C12": {
         "text": "NARROW: decides only the replicability clauses visible in "
                 "the code: no call in the package/examples resolves to an "
